@@ -42,6 +42,16 @@ type scriptHandler struct {
 	emitted  []mocrelay.ServerMsg
 	races    int
 	gate     atomic.Int32
+	nClosed  int
+}
+
+// every machine-readable prefix (and none, and an unknown one) in turn: ending a subscription does not depend on the reason given
+var c19Prefixes = []string{"", mocrelay.MachineReadablePrefixDuplicate, mocrelay.MachineReadablePrefixError, mocrelay.MachineReadablePrefixBlocked,
+	mocrelay.MachineReadablePrefixRateLimited, mocrelay.MachineReadablePrefixInvalid, mocrelay.MachineReadablePrefixPoW, "auth-required: ", "restricted: "}
+
+func (h *scriptHandler) closed(sub, why string) mocrelay.ServerMsg {
+	h.nClosed++
+	return mocrelay.NewServerClosedMsg(sub, c19Prefixes[h.nClosed%len(c19Prefixes)], why)
 }
 
 func (h *scriptHandler) ServeNostr(ctx context.Context, send chan<- mocrelay.ServerMsg, recv <-chan mocrelay.ClientMsg) error {
@@ -71,7 +81,7 @@ func (h *scriptHandler) ServeNostr(ctx context.Context, send chan<- mocrelay.Ser
 			switch m := m.(type) {
 			case *mocrelay.ClientReqMsg:
 				if strings.HasPrefix(m.SubscriptionID, "rej:") {
-					outs = []mocrelay.ServerMsg{mocrelay.NewServerClosedMsg(m.SubscriptionID, "", "refused")}
+					outs = []mocrelay.ServerMsg{h.closed(m.SubscriptionID, "refused")}
 				} else if strings.HasPrefix(m.SubscriptionID, "race:") {
 					// EOSE, then -- a moment later, while the client's CLOSE of the same id is on its way -- CLOSED
 					if !put(mocrelay.NewServerEOSEMsg(m.SubscriptionID)) {
@@ -84,7 +94,7 @@ func (h *scriptHandler) ServeNostr(ctx context.Context, send chan<- mocrelay.Ser
 					h.gate.Store(0)
 					for t0 := time.Now(); time.Since(t0) < time.Duration(h.races%60)*40*time.Nanosecond; {
 					}
-					outs = []mocrelay.ServerMsg{mocrelay.NewServerClosedMsg(m.SubscriptionID, "", "server closes"), mocrelay.NewServerNoticeMsg("raced")}
+					outs = []mocrelay.ServerMsg{h.closed(m.SubscriptionID, "server closes"), mocrelay.NewServerNoticeMsg("raced")}
 				} else {
 					outs = []mocrelay.ServerMsg{mocrelay.NewServerEOSEMsg(m.SubscriptionID)}
 				}
@@ -93,11 +103,11 @@ func (h *scriptHandler) ServeNostr(ctx context.Context, send chan<- mocrelay.Ser
 					return errors.New("backend gone") // the handler ends the session by itself
 				}
 				if strings.HasPrefix(m.SubscriptionID, "srv:") {
-					outs = append(outs, mocrelay.NewServerClosedMsg(strings.TrimPrefix(m.SubscriptionID, "srv:"), "", "server closes"))
+					outs = append(outs, h.closed(strings.TrimPrefix(m.SubscriptionID, "srv:"), "server closes"))
 				}
 				outs = append(outs, mocrelay.NewServerNoticeMsg("closed "+m.SubscriptionID))
 			case *mocrelay.ClientEventMsg:
-				outs = []mocrelay.ServerMsg{mocrelay.NewServerEventMsg("live", m.Event), mocrelay.NewServerOKMsg(m.Event.ID, true, "", "")}
+				outs = []mocrelay.ServerMsg{mocrelay.NewServerEventMsg("live", m.Event), mocrelay.NewServerOKMsg(m.Event.ID, h.nClosed%3 != 1, c19Prefixes[h.nClosed%len(c19Prefixes)], "")}
 			case *mocrelay.ClientCountMsg:
 				outs = []mocrelay.ServerMsg{mocrelay.NewServerCountMsg(m.SubscriptionID, 1, nil)}
 			case *mocrelay.ClientAuthMsg:
@@ -400,6 +410,24 @@ func C19(run *core.Run) {
 			}
 		}
 		observe("all sessions ended")
+		// a session whose context is already cancelled when it starts (the peer went away during the handshake):
+		// it starts and ends like any other
+		{
+			d := &scriptHandler{}
+			cctx, ccancel := context.WithCancel(context.Background())
+			ccancel()
+			cdone := make(chan error, 1)
+			go func() {
+				cdone <- mw(d).ServeNostr(cctx, make(chan mocrelay.ServerMsg), make(chan mocrelay.ClientMsg))
+			}()
+			select {
+			case <-cdone:
+				tr.Lines = append(tr.Lines, map[string]any{"op": "start", "s": "gone", "shape": "start"}, map[string]any{"op": "end", "s": "gone", "shape": "end"})
+				observe("after a session that started with a cancelled context")
+			case <-time.After(5 * time.Second):
+				run.Violate("metrics:session does not end", "ServeNostr of the middleware still running 5 s after it was started with a cancelled context", nil)
+			}
+		}
 		distinct.Add(tr.Name)
 		traces = append(traces, tr)
 	}
@@ -447,7 +475,7 @@ func C19(run *core.Run) {
 		}
 		run.Sample(map[string]any{"trace": traces[0].Name, "lines": traces[0].Lines[:min(8, len(traces[0].Lines))]})
 	}
-	run.Set("rule", "Metrics.tla is the gauge / counter state machine (model-checked for two sessions: gauges never negative, zero when no session is live); seeded runs put 1-4 sessions through the real NewPrometheusMiddleware(prometheus.NewRegistry()) around a scripted handler: repeated REQ of one id, CLOSE of open / never opened ids, server-side CLOSED, refused REQ, EVENT of four kinds, COUNT, AUTH, sessions ending with subscriptions open; a driver interleaves steps of all sessions (each step ends observably), then the sessions run concurrently; Registry.Gather() is logged at quiescent points and TLC validates every observation against the specification state (MetricsTrace); transparency (downstream received = client sent, client received = downstream emitted, in order) is compared per session. distinct_nontrivial = distinct runs")
+	run.Set("rule", "Metrics.tla is the gauge / counter state machine (model-checked for two sessions: gauges never negative, zero when no session is live); seeded runs put 1-4 sessions through the real NewPrometheusMiddleware(prometheus.NewRegistry()) around a scripted handler: repeated REQ of one id, CLOSE of open / never opened ids, server-side CLOSED and OK with every machine-readable prefix in turn, refused REQ, a session started with an already cancelled context, EVENT of four kinds, COUNT, AUTH, sessions ending with subscriptions open; a driver interleaves steps of all sessions (each step ends observably), then the sessions run concurrently; Registry.Gather() is logged at quiescent points and TLC validates every observation against the specification state (MetricsTrace); transparency (downstream received = client sent, client received = downstream emitted, in order) is compared per session. distinct_nontrivial = distinct runs")
 	run.Set("evaluations", run.Get("steps")+run.Get("observations"))
 	run.Set("distinct_nontrivial", distinct.Len())
 	run.Assume = append(run.Assume, "observations are taken only when every session is between steps (quiescent)")
